@@ -134,6 +134,11 @@ func wildify(rt *rapid.T, v *model.Val, p int) {
 		*v = wildVal(rt)
 		return
 	}
+	if v.T == "string" && rapid.IntRange(0, 99).Draw(rt, "hq") < p {
+		// a string leaf keeps its type but gets hostile content (what the string tests' helpers have to survive)
+		v.S = rapid.SampledFrom(hostileTexts).Draw(rt, "hs")
+		return
+	}
 	switch v.T {
 	case "strlist", "intlist", "f64list", "boollist":
 		v.T = "list" // typed lists cannot hold wild elements
@@ -258,6 +263,15 @@ var hostileStrings = func() []string {
 	}
 	return out
 }()
+
+// hostileTexts: hostileStrings plus texts that the parsers behind the string tests (net/url, regexp, mail-like
+// grammars, UUID) reject or barely accept
+var hostileTexts = append(append([]string{}, hostileStrings...),
+	"http://exa mple.com/", "http://x/%zz", "http://[::1/", "http://[::1]:80/", "://x", "http://x:port/", "http://:8080", "http://", "http:", "http:/x", "//x", "mailto:a@b.c",
+	"http://a\x00b/", "http://a/\x7f", "http://user:pa ss@host/", "http://host/#%zz", "http://host/?%zz", "HTTP://HOST", "http://例え.jp/", "http://a..b/", "http://-a/",
+	"a@b@c", "@", "a@", "@b", "a@b..c", "a@-b.c", "\"a b\"@c.d", "a@[1.2.3.4]", "a@b.c.", ".a@b.c",
+	"00000000-0000-0000-0000-00000000000", "00000000-0000-0000-0000-0000000000000", "g0000000-0000-0000-0000-000000000000", "{00000000-0000-0000-0000-000000000000}", "urn:uuid:00000000-0000-0000-0000-000000000000",
+	"(", ")", "[a-", "a{2,1}", "\\", "(?i)", "^$", "\\p{Greek}")
 
 func replaceJSONLeaves(rt *rapid.T, doc string) string {
 	repl := []string{`null`, `{}`, `[]`, `[[]]`, `1e308`, `-1`, `"x"`, `true`, `{"name":{}}`, `[null]`, `0.5`, `""`}
